@@ -76,6 +76,8 @@ func LoadFilter(filter Filter) error {
 		}
 	}
 
+	verifPreInstall(sockFilter, filter.Flag)
+
 	if err = seccomp(seccompSetModeFilter, filter.Flag, unsafe.Pointer(program)); err != nil {
 		if err == syscall.ENOSYS {
 			return fmt.Errorf("failed loading seccomp filter: seccomp "+
